@@ -5,5 +5,6 @@ CONSTANTS
   Durations <- DurationsThorough
   Offsets <- OffsetsThorough
   MaxAlter = 2
-INVARIANTS TypeOK Sound Complete RevealsUser Emit
+  WideNeighbours = FALSE
+INVARIANTS TypeOK Sound Complete RevealsUser ReadThenValidate Emit
 CHECK_DEADLOCK FALSE
